@@ -71,6 +71,14 @@ Lemma adec_lift {A} (r : sres A) (k : A * dst -> ares (val * dst)) bs p1 p2 P a 
   dec_ok r bs p1 a -> (forall d1, at_pos d1 bs p1 -> adec_ok (k (a, d1)) bs p2 P) -> adec_ok (abind (alift r) k) bs p2 P.
 Proof. intros (d1 & -> & H1) Hk. cbn [alift]. eapply adec_bind; [reflexivity|]. apply Hk. exact H1. Qed.
 
+Lemma abind_assoc {A B C} (r : ares A) (f : A -> ares B) (g : B -> ares C) :
+  abind (abind r f) g = abind r (fun a => abind (f a) g).
+Proof.
+  destruct r as [[a| | |] k]; cbn [abind]; try reflexivity.
+  destruct (f a) as [[b| | |] m]; cbn [abind]; try reflexivity.
+  destruct (g b) as [r' q]. f_equal. lia.
+Qed.
+
 Lemma adec_ret v d bs pos (P : val -> Prop) : at_pos d bs pos -> P v -> adec_ok (aret (v, d)) bs pos P.
 Proof. intros H HP. exists v, d, 0. auto. Qed.
 
